@@ -12,6 +12,7 @@ import BV.C09.Lemmas7
 import BV.C09.Lemmas8
 import BV.C09.Lemmas9
 import BV.C09.Lemmas10
+import BV.C09.Lemmas11
 import BV.Generated.C09
 namespace BV.C09
 open Spec
@@ -496,6 +497,24 @@ theorem process_headers_mtp (p : Params) (chain hs : List Hdr) (hne : chain ≠ 
     (hv : Lemmas.TimesValid chain) :
     calcPastMedianTime chain ≤ calcPastMedianTime (processHeaders p chain hs).1 ∧
       Lemmas.TimesValid (processHeaders p chain hs).1 := Lemmas.l7_mtp p chain hs hne hv
+
+/-- Header TREES (every offered header names its parent; side branches grow next to the main branch): every
+    known chain stays non-empty and obeys the time-stamp rule, whatever is offered on whatever branch. -/
+theorem process_tree_good (p : Params) (hs : List (Nat × Hdr)) (known : List (List Hdr))
+    (hk : ∀ c ∈ known, Lemmas.GoodChain c) : ∀ c ∈ (processTree p known hs).1, Lemmas.GoodChain c :=
+  Lemmas.l11_tree_good p hs known hk
+
+/-- The set of known chains only grows, each new chain is `h :: parent` with a parent that is itself known,
+    a target in (0, powLimit] and strictly more cumulative work than the parent — on every branch. -/
+theorem process_tree_grows (p : Params) (hlim : p.powLimit < 2 ^ 256) (hs : List (Nat × Hdr))
+    (known : List (List Hdr)) :
+    ∃ added, (processTree p known hs).1 = known ++ added ∧
+      ∀ c ∈ added, ∃ h par, c = h :: par ∧ par ∈ known ++ added ∧
+        (0 < compactToBig h.bits ∧ compactToBig h.bits ≤ p.powLimit) ∧ workSum par < workSum c :=
+  Lemmas.l11_tree_grows p hlim hs known
+
+example : ∀ c ∈ [[(⟨1296688602, 0x207fffff⟩ : Hdr)]], Lemmas.GoodChain c := by
+  intro c hc; simp at hc; subst hc; exact ⟨by simp, fun h => absurd rfl h, trivial⟩
 
 /-- a chain consisting of a genesis header alone satisfies the hypotheses -/
 example : ([⟨1296688602, 0x207fffff⟩] : List Hdr) ≠ [] ∧ Lemmas.TimesValid [⟨1296688602, 0x207fffff⟩] :=
